@@ -62,6 +62,10 @@ type Kernel struct {
 	free        bool // free-running mode after budget exhaustion
 	prioSalt    uint64
 	siteCount   map[string]int
+	// OnRelease, if set, is called by the scheduler right before it lets the
+	// chosen task continue from the named yield site (fault injection at exact
+	// program points: the task resumes with the fault already in effect).
+	OnRelease func(task, site string)
 }
 
 func goid() uint64 {
@@ -269,6 +273,9 @@ func (k *Kernel) Run() {
 		_, _ = h.Write([]byte{'@'})
 		_, _ = h.Write([]byte(r.site))
 		_, _ = h.Write([]byte{0, byte(len(names))})
+		if k.OnRelease != nil {
+			k.OnRelease(pick, r.site)
+		}
 		if k.MaxSteps > 0 && k.Steps >= k.MaxSteps && !k.free {
 			// Budget exhausted: switch to free-running so that tasks can finish
 			// (or block for good, which synctest reports).
@@ -325,6 +332,12 @@ func (k *Kernel) Shuffle(names []string) {
 	r := rand.New(rand.NewPCG(k.prioSalt, uint64(len(names))))
 	r.Shuffle(len(names), func(i, j int) { names[i], names[j] = names[j], names[i] })
 }
+
+// StepCount returns the number of scheduling steps taken so far. It is read by
+// tasks while they hold the (single) run permission.
+//
+//go:norace
+func (k *Kernel) StepCount() int { return k.Steps }
 
 // TraceHash identifies the schedule (task@site sequence and runnable-set sizes).
 func (k *Kernel) TraceHash() uint64 { return k.traceHash }
